@@ -10,6 +10,7 @@ import (
 	"net/http"
 	"net/http/httptest"
 	"strings"
+	"sync"
 
 	"github.com/google/inverting-proxy/agent/banner"
 	"github.com/google/inverting-proxy/agent/websockets"
@@ -419,6 +420,61 @@ func suiteSplice(e *vh.Env) {
 		e.Eval(fmt.Sprintf("overlap-%d", r), true)
 		e.Count("overlap")
 	}
+	spliceConcurrent(e, shim, code, n+rounds)
+}
+
+// spliceConcurrent: the agent rewrites many responses at once (one ModifyResponse call per in-flight request, on as
+// many goroutines); each body must come out as if it had been rewritten alone.
+func spliceConcurrent(e *vh.Env, shim func(*http.Response) error, code []byte, base int) {
+	if !e.Want(base) {
+		return
+	}
+	workers, per := 8, e.N(400, 6000)
+	var wg sync.WaitGroup
+	var mu sync.Mutex
+	bad := 0
+	first := ""
+	for g := 0; g < workers; g++ {
+		wg.Add(1)
+		go func(g int) {
+			defer wg.Done()
+			for k := 0; k < per; k++ {
+				tag := fmt.Sprintf("w%02d-%06d", g, k)
+				var b []byte
+				if (g+k)%2 == 0 {
+					b = []byte("<!doctype html>\n<html>\n<head><title>" + tag + "</title></head><body>")
+				} else {
+					b = []byte("<html><head><meta name=\"" + tag + "\"></head>")
+				}
+				for j := 0; j < 40+(k%7)*30; j++ {
+					b = append(b, tag...)
+				}
+				resp := &http.Response{Header: http.Header{"Content-Type": {"text/html"}}, Body: &segReader{segs: [][]byte{append([]byte{}, b...)}}}
+				if err := shim(resp); err != nil {
+					continue
+				}
+				out, _ := io.ReadAll(resp.Body)
+				want := b
+				if idx := bytes.Index(b, []byte("<head>")); idx >= 0 && idx+6 <= 1024 {
+					want = append(append(append([]byte{}, b[:idx+6]...), code...), b[idx+6:]...)
+				}
+				if !bytes.Equal(out, want) {
+					mu.Lock()
+					bad++
+					if first == "" {
+						first = fmt.Sprintf("response %s (%d bytes) came out as %d bytes starting %q", tag, len(b), len(out), truncBytesDrv(out, 60))
+					}
+					mu.Unlock()
+				}
+			}
+		}(g)
+	}
+	wg.Wait()
+	if bad > 0 {
+		e.Fail("C14:splice-concurrent-altered", fmt.Sprintf("%d of %d HTML responses rewritten concurrently on %d goroutines differ from the original with the script inserted once after the first <head>; first: %s", bad, workers*per, workers, first), base, nil, bad, 0)
+	}
+	e.Eval("concurrent", true)
+	e.Count("concurrent-rewrites")
 }
 
 func truncBytesDrv(b []byte, n int) string {
